@@ -152,7 +152,9 @@ TEXT["C02"] = dict(
         "constants and its crypt/fold tables equal the published ones (kernel-evaluated against values regenerated from "
         "the compiled crate); key derivation coincides for names without a path separator and the cipher for buffers of "
         "whole dwords, so inside that region every C01 carrier theorem transfers to the reference; outside it the two "
-        "provably differ (kernel-checked witnesses = the two listed findings)."),
+        "provably differ (kernel-checked witnesses = the two listed findings). At the level of whole archives: for any set "
+        "of unencrypted files the code's writer and the reference writer produce the same bytes, hence each side's reader "
+        "returns every file the other side wrote (interop_unencrypted, from C01's archive_roundtrip)."),
   note=("PARTIAL: V1/V2 subset; CPython codecs trusted. Known findings: encrypted files in sub-directories use a key "
         "derived from the full path (published: plain name); the 1-3 tail bytes of encrypted buffers are encrypted "
         "(published: left plain). Both break interoperability for those files in both directions."),
@@ -173,7 +175,7 @@ TEXT["C07"] = dict(
 
 TEXT["C10"] = dict(
     text="Machine-checked Lean 4 theorems: changing any single byte of a buffer of any length changes its ADLER32 and its CRC32 (the latter via injectivity of the table-driven register step, with the table facts checked by kernel evaluation over all 256 entries); whatever the sectored reader returns matches every stored sector checksum, a raw sector with one altered byte fails the read, and intact sectors are accepted unchanged; SFileVerifyFile's decision accepts only content matching the CRC32/MD5 attributes and rejects any one-byte change; the weak signature's digest input differs whenever two archives differ in a byte outside the signature file (full coverage). Tied to the code by running the Lean checksum definitions against adler2/crc32fast, the digest-coverage model against calculate_mpq_hash_md5, and by altering every protected offset of archives carrying each kind of metadata with an oracle 'failure reported or content bit-identical'.",
-    note="Partial by nature: MD5/RSA strength is assumed; multi-byte alterations are covered by checksums only probabilistically (sampled). Four genuine defects repaired in /repo: sector checksums of multi-sector files were never verified (and damaged offsets/empty sectors returned zeros); builder wrote HET/BET positions in the wrong header order so V4 digests failed on intact archives; header-controlled allocations aborted the process.",
+    note="Partial by nature: MD5/RSA strength is assumed; multi-byte alterations are covered by checksums only probabilistically (sampled). Four genuine defects repaired in /repo: sector checksums of multi-sector files were never verified (and damaged offsets/empty sectors returned zeros); builder wrote HET/BET positions in the wrong header order so V4 digests failed on intact archives; header-controlled allocations aborted the process; in-place modification threw away every recorded checksum of untouched files and recorded CRC32 0 / MD5 zeros for the files it added (D56, D57).",
     technique="Lean 4 proof (algebraic detection lemmas for ADLER32/CRC32, soundness of accept/reject logic, coverage of the signed range) + exhaustive-offset corruption oracle and checksum correspondence",
 )
 
